@@ -1,10 +1,106 @@
-(* C03 - placeholder while the harness is brought up *)
-From PV Require Import Model.Density.
+(* C03 - the joint log-density implements the FS-CRP model and depends only on the tree.
+   Linear domain (exp of every log value).  [spec_*] is written from the statement (Model/Density.v part 1), [impl_*] are
+   transliterations of TreeJointDistribution.log_p / .log_p_one / .compute_both_log_p_and_log_p_one (part 2).
+   The per-sample root vector [rootR] (tree.data_log_likelihood) is an input: the recursion producing it is C02's model.
+   Premises: 1 < c (the code's c_const = 1000); every data point of the forest has outlier prior 0 <= p < 1 and cluster
+   size >= 1 ([dp_ok]); alpha is arbitrary (the equalities hold for every alpha, in particular every alpha > 0). *)
+From PV Require Import Model.Density Proofs.DensityProofs Proofs.DensityEquiv Proofs.DensityClades.
+
+(* the three code paths compute the spec, for every forest, alpha, data and root vector *)
+Theorem C03_impl_is_spec : forall (alpha c : Qc) (D : nat -> dpoint) (F : forest) (rootR : list (list Qc)),
+  1 < c -> (forall i, In i (fpoints F) -> dp_ok (D i)) ->
+  impl_log_p alpha D F rootR = spec_log_p alpha D F rootR
+  /\ impl_log_p_one alpha c D F rootR = spec_log_p_one alpha c D F rootR
+  /\ impl_both alpha c D F rootR = (spec_log_p alpha D F rootR, spec_log_p_one alpha c D F rootR).
+Proof.
+  intros. split; [apply impl_log_p_spec| split; [apply impl_log_p_one_spec| apply impl_both_spec]]; assumption.
+Qed.
+Print Assumptions C03_impl_is_spec.
+
+(* computing both forms together (with the falsy-zero fall-through on the passed start values) = computing them separately *)
+Theorem C03_fused_eq_separate : forall (alpha c : Qc) (D : nat -> dpoint) (F : forest) (rootR : list (list Qc)),
+  1 < c -> (forall i, In i (fpoints F) -> dp_ok (D i)) ->
+  impl_both alpha c D F rootR = (impl_log_p alpha D F rootR, impl_log_p_one alpha c D F rootR).
+Proof. exact fused_eq_separate. Qed.
+Print Assumptions C03_fused_eq_separate.
+
+(* DataPoint.__init__'s outlier_marginal_prob is the marginal data term of the point alone in a single-clone tree *)
+Theorem C03_outlier_marginal_single_clone : forall val : list (list Qc),
+  outlier_marginal_prob val = spec_data_marg (mkF [Node [0%nat] []] []) (map single_clone_rootR val).
+Proof. exact outlier_marginal_single_clone. Qed.
+Print Assumptions C03_outlier_marginal_single_clone.
+
+(* the root-count penalty of the code (closed-form geometric normaliser) is c^-(R-1) / sum_{r=1..R} c^-(r-1) *)
+Theorem C03_root_penalty : forall (c : Qc) (R nn : nat), 1 < c -> r_term c R nn = root_penalty c R.
+Proof. exact r_term_spec. Qed.
+Print Assumptions C03_root_penalty.
+
+(* the value is unchanged under any permutation of siblings at any depth and any order of the points inside a clone or
+   among the outliers; node labels and construction histories do not exist in the model (a forest is its own history) *)
+Theorem C03_equiv_invariant : forall (alpha c : Qc) (D : nat -> dpoint) (F F' : forest) (rootR : list (list Qc)),
+  feq F F' ->
+  (spec_log_p alpha D F rootR = spec_log_p alpha D F' rootR
+   /\ spec_log_p_one alpha c D F rootR = spec_log_p_one alpha c D F' rootR)
+  /\ (1 < c -> (forall i, In i (fpoints F) -> dp_ok (D i)) ->
+      impl_log_p alpha D F rootR = impl_log_p alpha D F' rootR
+      /\ impl_log_p_one alpha c D F rootR = impl_log_p_one alpha c D F' rootR
+      /\ impl_both alpha c D F rootR = impl_both alpha c D F' rootR).
+Proof.
+  intros alpha c D F F' rootR HF. split; [apply spec_equiv_invariant; exact HF|].
+  intros Hc Hok. apply impl_equiv_invariant; assumption.
+Qed.
+Print Assumptions C03_equiv_invariant.
+
+(* [feq] is an equivalence relation *)
+Theorem C03_feq_equivalence :
+  (forall F, feq F F) /\ (forall F F', feq F F' -> feq F' F) /\ (forall F1 F2 F3, feq F1 F2 -> feq F2 F3 -> feq F1 F3).
+Proof. split; [exact feq_refl| split; [exact feq_sym| exact feq_trans]]. Qed.
+Print Assumptions C03_feq_equivalence.
+
+(* Growth: Tree.__eq__ / __hash__ compare (set of clades, set of outliers).  For well-formed forests (every data index
+   once, every clone non-empty) that key is equal exactly when the forests are equal up to sibling order *)
+Theorem C03_clades_determine_tree : forall F F' : forest, wf F -> wf F' -> (tree_eq F F' <-> feq F F').
+Proof. exact clades_determine_tree. Qed.
+Print Assumptions C03_clades_determine_tree.
+
+(* the non-empty-clone premise is needed: an empty clone above a single child collapses into the child's clade *)
+Example C03_empty_clone_refuted :
+  let F := mkF [Node [] [Node [0%nat] []]] [] in
+  let F' := mkF [Node [0%nat] []] [] in
+  NoDup (fpoints F) /\ NoDup (fpoints F') /\ tree_eq F F' /\ ~ feq F F'.
+Proof. exact empty_clone_collapses. Qed.
+Print Assumptions C03_empty_clone_refuted.
+
 Open Scope nat_scope.
-Example C03_smoke :
-  let F := mkF [Node [0] [Node [1;2] []; Node [3] []]; Node [4] []] [5] in
-  let D := fun _ : nat => mkDP (Q2Qc (1#10)) 1 [[Q2Qc (1#2); Q2Qc (1#4); Q2Qc (3#4)]] in
-  let R := [[Q2Qc (1#20); Q2Qc (1#30); Q2Qc (1#40)]] in
-  impl_log_p (Q2Qc (3#10)) D F R = spec_log_p (Q2Qc (3#10)) D F R.
-Proof. vm_compute; reflexivity. Qed.
-Print Assumptions C03_smoke.
+(* non-vacuity: a three-level forest with an outlier, alpha = 3/10, p = 1/10 (premises hold, the value is not trivial) *)
+Example C03_nontrivial :
+  this (impl_log_p (Q2Qc (3#10)) exD exF exR) = (2051893701 # 800000000000000000)%Q
+  /\ this (spec_log_p (Q2Qc (3#10)) exD exF exR) = (2051893701 # 800000000000000000)%Q
+  /\ this (impl_log_p_one (Q2Qc (3#10)) c_default exD exF exR) = this (spec_log_p_one (Q2Qc (3#10)) c_default exD exF exR)
+  /\ this (impl_log_p (Q2Qc (3#10)) exD exF' exR) = (2051893701 # 800000000000000000)%Q.
+Proof. repeat split; vm_compute; reflexivity. Qed.
+Print Assumptions C03_nontrivial.
+
+(* the premises of the invariance / clade theorems are satisfiable on that pair: exF and exF' are well-formed and equivalent *)
+Example C03_nontrivial_equiv : wf exF /\ wf exF' /\ feq exF exF' /\ tree_eq exF exF'.
+Proof. exact ex_equiv. Qed.
+Print Assumptions C03_nontrivial_equiv.
+
+(* the falsy-zero fall-through is exercised: with alpha = 1 and clones of size <= 2 the start value is exactly 1
+   (log value 0.0), the fused path recomputes it and still agrees *)
+Example C03_falsy_start_value :
+  let F := mkF [Node [0;1] [Node [2] []]] [] in
+  this (fst (alpha_crp 1 F)) = 1%Q
+  /\ falsyQ (Some (fst (alpha_crp 1 F))) = true
+  /\ this (fst (prior_both 1 c_default F)) = this (prior_log_p 1 F None None None).
+Proof. repeat split; vm_compute; reflexivity. Qed.
+Print Assumptions C03_falsy_start_value.
+
+(* boundary witness: with outlier prior p = 1 the code's `outlier_prob != 0` test on the LOG value (log 1 = 0) skips the
+   prior, so a clone point gets factor 1 where the statement gives (1-p)^size = 0; hence the premise p < 1 *)
+Example C03_outlier_prob_one_refuted :
+  let D := fun _ : nat => mkDP 1 1 [[Q2Qc (1#2)]] in
+  let F := mkF [Node [0] []] [] in
+  this (spec_log_p 1 D F [[Q2Qc (1#2)]]) = 0%Q /\ this (impl_log_p 1 D F [[Q2Qc (1#2)]]) = (1#2)%Q.
+Proof. split; vm_compute; reflexivity. Qed.
+Print Assumptions C03_outlier_prob_one_refuted.
